@@ -958,6 +958,10 @@ func (t *Topic) sendImmediateSubNotifications(asUid types.Uid, acs *MsgAccessMod
 			sendPush(t.pushForP2PSub(asUid, uid2, pud2.modeWant, pud2.modeGiven, now))
 		}
 	} else if t.cat == types.TopicCatGrp && !asChan && sreg.Sub.Newsub {
+		// Notify current user's 'me' topic to accept notifications from this topic. The announcement which
+		// would do it ("on+en") is deferred for a background session and is lost if that session leaves first.
+		t.presSingleUserOffline(asUid, mode, "?none+en", nilPresParams, "", false)
+
 		// For new group subscriptions, notify other group members.
 		sendPush(t.pushForGroupSub(asUid, now))
 	}
